@@ -74,6 +74,14 @@ func (w *World) oracleOnBind(p *PodInfo, m *simkube.Mutation) {
 					"pod %s was bound with IP %s but the store records owner %q, expected %q", p.key(), ip, owner, p.Key)
 				return
 			}
+			// "at most one owner": the owner the store names is this pod, not an earlier pod of the same name — a record
+			// that carries another incarnation's uid is released by that incarnation's late delete event or by the next
+			// resync pass (which finds "its" pod gone) while this pod is alive
+			if f := w.storeFip(ip); w.inNewestConf(ip) && f != nil && f.Key == p.Key && f.UID != "" && f.UID != p.UID {
+				w.fail("C01.bound-ip-owned-by-other-incarnation", w.c04Key("bound-ip-owned-by-other-incarnation", p.Key, 0),
+					"pod %s (uid %s) was bound with IP %s but the store records it for uid %s of the same name", p.key(), p.UID, ip, f.UID)
+				return
+			}
 		}
 	}
 	if w.armed("C11") {
